@@ -9,7 +9,65 @@ from ..report import Report
 from .c01 import FUNCS
 
 
+def build_same_name(spec):
+    """every node gets its OWN OperatorTemplate objects - same operator names, same equations, but the node's values as
+    the template defaults (instead of per-node overrides of one shared template)"""
+    import copy
+    from pyrates import CircuitTemplate, NodeTemplate, OperatorTemplate
+    nodes = {}
+    for n, ns in spec.nodes.items():
+        ops = []
+        for oname in ns.ops:
+            o = copy.deepcopy(spec.ops[oname])
+            for (oo, v), val in ns.overrides.items():
+                if oo == oname:
+                    o.vars[v] = (o.vars[v][0], val)
+            ops.append(OperatorTemplate(name=o.name, path=None, equations=o.eq_strings(), variables=o.var_defs()))
+        nodes[n] = NodeTemplate(name=f"{n}_tpl", path=None, operators=ops)
+    edges = [(e.src, e.tgt, None, {'weight': float(e.weight)}) for e in spec.edges]
+    return CircuitTemplate(spec.name, nodes=nodes, edges=edges)
+
+
+def build_derived_twice(spec):
+    """the derived operator dop (= bop plus one added equation) is derived TWICE through OperatorTemplate.update_template
+    with the SAME edits dictionary object; the circuit uses the second derivation"""
+    from pyrates import CircuitTemplate, NodeTemplate, OperatorTemplate
+    b, d = spec.ops['bop'], spec.ops['dop']
+    bop = OperatorTemplate(name='bop', path=None, equations=b.eq_strings(), variables=b.var_defs())
+    edits = {'add': [q for q in d.eq_strings() if q not in b.eq_strings()]}
+    newvars = {v: x for v, x in d.var_defs().items() if v not in b.var_defs()}
+    bop.update_template(name='dop', equations=edits, variables=dict(newvars))
+    dop = bop.update_template(name='dop', equations=edits, variables=dict(newvars))
+    tpl = {'bop': bop, 'dop': dop}
+    nodes = {}
+    for n, ns in spec.nodes.items():
+        nodes[n] = NodeTemplate(name=f"{n}_tpl", path=None, operators={
+            tpl[o]: {v: float(val) for (oo, v), val in ns.overrides.items() if oo == o} for o in ns.ops})
+    edges = [(e.src, e.tgt, None, {'weight': float(e.weight)}) for e in spec.edges]
+    return CircuitTemplate(spec.name, nodes=nodes, edges=edges)
+
+
 def _tv_job(job):
+    if job.get('derive_twice'):
+        j = dict(job)
+        j['builder'] = 'python'
+        j['pre'] = lambda _ct, spec: build_derived_twice(spec)
+        return tvjobs.tv_job(j)
+    if job.get('same_name'):
+        from .. import yamlio, tv
+        j = dict(job)
+        j['builder'] = 'python'
+
+        def pre(_ct, spec):
+            ct = build_same_name(spec)
+            if job['same_name'] == 'roundtrip':
+                try:
+                    ct = yamlio.roundtrip_template(ct)
+                except Exception as e:   # noqa
+                    raise tv.CompileError(RuntimeError(f"to_yaml -> from_yaml fails: {type(e).__name__}: {e}"))
+            return ct
+        j['pre'] = pre
+        return tvjobs.tv_job(j)
     if job.get('derived'):
         from .. import yamlio, tv, tvspec, decide
         ct = yamlio.build_yaml(job['spec'], derived=job['derived'])
@@ -50,6 +108,16 @@ def run(tier='quick', seed=0, only=None, verbose=False):
         for vec in (True, False):
             jobs.append(dict(key=f"{key}|derived|vec={vec}", spec=spec, vectorize=vec, backend='default',
                              builder='yaml', derived=derived))
+    for key, spec, derived in families.fam_derived():
+        if key == 'FD:add_eq:chain=1':
+            for vec in (True, False):
+                jobs.append(dict(key=f"{key}|derived-twice-with-one-edits-dict|vec={vec}", spec=spec, vectorize=vec,
+                                 backend='default', derive_twice=True))
+    # operator templates that share a NAME but are different objects with different default values (two and three)
+    for key, spec in families.fam_zero_overrides()[:1] + families.fam_edges_two_nodes(1, 2)[:1]:
+        for how in ('python', 'roundtrip'):
+            jobs.append(dict(key=f"{key}|same-name-operator-templates|{how}|vec=False", spec=spec, vectorize=False,
+                             backend='default', same_name=how))
     if only:
         jobs = [j for j in jobs if only in j['key']]
     tvjobs.run_tv_jobs(rep, jobs, verbose=verbose, fn=_tv_job)
